@@ -224,7 +224,7 @@ fn roundtrip_case(src: &mut Src, ctx: &mut Ctx) -> Result<(), String> {
 }
 
 // ---- negative messages: each mandatory sub-message removed in turn, and unsupported constructs --------------
-const FAULTS: &[&str] = &["layout outline removed", "instance location removed", "instance inner place removed", "instance cell reference removed", "reference target removed", "cut track removed", "cut cross removed", "assignment location removed", "assignment track removed", "reference to an undefined cell", "relative placement", "external reference", "outline with increasing x", "outline with decreasing y", "negative track number", "abstract outline removed"];
+const FAULTS: &[&str] = &["layout outline removed", "instance location removed", "instance inner place removed", "instance cell reference removed", "reference target removed", "cut track removed", "cut cross removed", "assignment location removed", "assignment track removed", "reference to an undefined cell", "relative placement", "external reference", "outline with increasing x", "outline with decreasing y", "negative track number", "abstract outline removed", "an instantiated cell removed from the message", "cells listed users first", "every cell without instances removed"];
 fn negative_case(src: &mut Src, ctx: &mut Ctx) -> Result<(), String> {
     let m = gen_lib(src);
     let lib = build(&m);
@@ -240,7 +240,41 @@ fn negative_case(src: &mut Src, ctx: &mut Ctx) -> Result<(), String> {
     let mut applied = false;
     let ncells = plib.cells.len();
     let start = src.index(ncells);
+    // message-level faults: the reference that dangles may sit in the very first cell of the message
+    let has_insts = |c: &tproto::Cell| c.layout.as_ref().map(|l| !l.instances.is_empty()).unwrap_or(false);
+    let target_of = |i: &tproto::Instance| match i.cell.as_ref().and_then(|r| r.to.as_ref()) {
+        Some(tet::protos::utils::reference::To::Local(n)) => Some(n.clone()),
+        _ => None,
+    };
+    if kind >= 16 {
+        match kind {
+            16 => {
+                let used: Vec<String> = plib.cells.iter().filter_map(|c| c.layout.as_ref()).flat_map(|l| l.instances.iter().filter_map(|i| target_of(i))).collect();
+                let cands: Vec<usize> = (0..ncells).filter(|j| used.contains(&plib.cells[*j].name)).collect();
+                if !cands.is_empty() {
+                    let j = cands[start % cands.len()];
+                    plib.cells.remove(j);
+                    applied = true;
+                }
+            }
+            17 => {
+                if plib.cells.iter().any(|c| has_insts(c)) {
+                    plib.cells.reverse();
+                    applied = true;
+                }
+            }
+            _ => {
+                if plib.cells.iter().any(|c| has_insts(c)) {
+                    plib.cells.retain(|c| has_insts(c));
+                    applied = true;
+                }
+            }
+        }
+    }
     for off in 0..ncells {
+        if kind >= 16 {
+            break;
+        }
         let c = &mut plib.cells[(start + off) % ncells];
         match kind {
             15 => {
@@ -330,7 +364,7 @@ fn negative_case(src: &mut Src, ctx: &mut Ctx) -> Result<(), String> {
     }
 }
 fn run(run: &mut Run) {
-    run.rule("Placed gridded-layout libraries: 1-5 cells forming a DAG in shuffled listing order, stepped outlines of 1-4 steps (ties allowed), 0-5 metals, instances with all four reflection combinations and arbitrary locations, arbitrary assignments and cuts, abstract views without ports; export, check cell order, import, compare every field. Negative messages: the exported message with one of 16 faults (each mandatory sub-message removed, undefined/external reference, relative placement, non-monotone outline, negative track) must be an error, not a crash. Non-trivial = >= 2 cells, a reflected instance, an assignment and a cut; distinct by hash.");
+    run.rule("Placed gridded-layout libraries: 1-5 cells forming a DAG in shuffled listing order, stepped outlines of 1-4 steps (ties allowed), 0-5 metals, instances with all four reflection combinations and arbitrary locations, arbitrary assignments and cuts, abstract views without ports; export, check cell order, import, compare every field. Negative messages: the exported message with one of 19 faults (each mandatory sub-message removed, undefined/external reference, an instantiated cell removed, cells listed users first, all leaf cells removed - the dangling reference may be in the first cell, relative placement, non-monotone outline, negative track) must be an error, not a crash. Non-trivial = >= 2 cells, a reflected instance, an assignment and a cut; distinct by hash.");
     run.assume("abstract ports are not generated: their import is todo!() and they are not in the statement's field list");
     run.min_nontrivial = 200;
     run.explore("roundtrip", run.tier.pick(500_000, 5_000_000), 500, &roundtrip_case);
